@@ -49,14 +49,14 @@ FromEventLogLegacy(r) ==
 \* result of fromQuote: <<blob, object-name kind, error?>>
 FromQuote(q) ==
   CASE q \in {"none", "unparseable"} -> <<"", "", TRUE>>
-    [] q = "snp_extra" -> <<"quote_extra", IF Design = "legacy" THEN "" ELSE "full", FALSE>>
-    [] q \in {"snp_noextra", "report_only", "tdx"} -> <<"", "full", FALSE>>
+    [] q = "snp_extra" -> <<"quote_extra", IF Design = "legacy" THEN "" ELSE "fullq", FALSE>>
+    [] q \in {"snp_noextra", "report_only", "tdx"} -> <<"", "fullq", FALSE>>
     [] q = "certtable_extra" -> <<"quote_extra", "", FALSE>>     \* no measurement in a bare certificate table
     [] q = "certtable_noextra" -> <<"", IF Design = "legacy" THEN "short" ELSE "", FALSE>>
     [] q \in {"snp_short_meas", "tdx_short_mrtd"} -> <<"", IF Design = "legacy" THEN "short" ELSE "", FALSE>>
 FromProvider(p) ==
-  CASE p = "snp_extra" -> <<"provider_extra", IF Design = "legacy" THEN "" ELSE "full", FALSE>>
-    [] p = "snp_noextra" -> <<"", "full", FALSE>>
+  CASE p = "snp_extra" -> <<"provider_extra", IF Design = "legacy" THEN "" ELSE "fullp", FALSE>>
+    [] p = "snp_noextra" -> <<"", "fullp", FALSE>>
     [] OTHER -> <<"", "", TRUE>>
 
 \* the network stage: (repaired) the event log's URI locator first, then the bucket object
@@ -66,7 +66,8 @@ Fetch(r, obj, soFar) ==
   IN IF tryUri /\ r.getter = "ok" THEN <<"net_body", afterUri>>
      ELSE IF r.getter = "none" THEN <<"err", afterUri>>
      ELSE IF obj = "" /\ Design # "legacy" THEN <<"err", afterUri>>          \* nothing to ask for
-     ELSE LET url == IF obj = "full" THEN "obj_full" ELSE IF obj = "short" THEN "obj_short" ELSE "bucket_root" IN
+     ELSE LET url == IF obj = "fullq" THEN "obj_full_quote" ELSE IF obj = "fullp" THEN "obj_full_provider"
+                     ELSE IF obj = "short" THEN "obj_short" ELSE "bucket_root" IN
           IF r.getter = "ok" THEN <<"net_body", Append(afterUri, url)>> ELSE <<"err", Append(afterUri, url)>>
 
 Extract(r) ==
@@ -108,11 +109,22 @@ StepDir(d, c) ==
 RECURSIVE Walk(_, _)
 Walk(d, s) == IF s = <<>> \/ d = "noent" THEN d ELSE Walk(StepDir(d, Head(s)), Tail(s))
 
-Init == row \in SrcRows \cup PathRows /\ out = "pending" /\ reqs = <<>>
+\* ---------------- the SNP validator's own fetch (verify.SNPFamilyValidateFunc) ----------------
+ValRows == [mode : {"validator"}, supplied : {"opts", "blob", "both", "none"}, getter : Getters, meas : {"full", "short"}]
+Validate(r) ==
+  IF r.meas = "short" THEN <<"err", <<>>>>                                   \* size check comes first
+  ELSE IF r.supplied # "none" THEN <<"ok", <<>>>>
+  ELSE IF r.getter = "none" THEN <<"err", <<>>>>
+  ELSE IF r.getter = "ok" THEN <<"ok", <<"obj_full_quote">>>>
+  ELSE <<"err", <<"obj_full_quote">>>>
+
+Init == row \in SrcRows \cup PathRows \cup ValRows /\ out = "pending" /\ reqs = <<>>
 Decide ==
   /\ out = "pending"
   /\ IF row.mode = "sources"
        THEN LET e == Extract(row) IN out' = e[1] /\ reqs' = e[2]
+       ELSE IF row.mode = "validator"
+       THEN LET v == Validate(row) IN out' = v[1] /\ reqs' = v[2]
        ELSE out' = Walk("in0", row.name) /\ reqs' = <<>>
   /\ UNCHANGED row
 Spec == Init /\ [][Decide]_vars
@@ -121,7 +133,16 @@ C16_LocalFirst ==
   out # "pending" /\ row.mode = "sources" /\ ~row.force /\ Local(row) \in {"evlog_raw", "evlog_var", "quote_extra"} =>
      out = Local(row) /\ reqs = <<>>
 C16_FetchOnlyForMeasurement ==
-  row.mode = "sources" => \A i \in 1 .. Len(reqs) : reqs[i] \in {"obj_full", "uri_from_log"}
+  row.mode = "sources" => \A i \in 1 .. Len(reqs) : reqs[i] \in {"obj_full_quote", "obj_full_provider", "uri_from_log"}
+\* the object asked for, and the evidence returned, are those of the supplied attestation whenever it
+\* carries a full-length measurement: the local machine's own quote is only consulted otherwise
+HasFullMeasurement(q) == q \in {"snp_extra", "snp_noextra", "report_only", "tdx"}
+C16_SuppliedDecides ==
+  out # "pending" /\ row.mode = "sources" /\ HasFullMeasurement(row.quote) =>
+     out # "provider_extra" /\ \A i \in 1 .. Len(reqs) : reqs[i] # "obj_full_provider"
+\* a validator that has been given the endorsement (by the caller or from the certificate table) does not
+\* touch the network
+C16_ValidatorOffline == row.mode = "validator" /\ row.supplied # "none" => reqs = <<>>
 C16_ForcedIsNetwork ==
   out # "pending" /\ row.mode = "sources" /\ row.force => out \in {"net_body", "err"}
 C16_PathConfined == row.mode = "path" => out # "out"
